@@ -231,6 +231,52 @@ def rule_line_suffix(ctx, rep):
               f"with exclude=False the matcher receives {sorted(set(inc_bad))} patterns: the ':line' suffix is not stripped (a `path:line` include would match no file / is discarded)")
 
 
+def rule_glob_only(ctx, rep):
+    rep.rule(
+        "R-GLOB-ONLY",
+        "every file name filter_files yields was selected by the glob matcher (fnmatch.filter / fnmatch.fnmatch with one of the patterns): a "
+        "hand-written shortcut (prefix / first-component / set membership test) decides for some patterns in place of the pattern language, and "
+        "its agreement with fnmatch for *all* patterns (nested literal directories, `**` in the middle) cannot be established",
+        min_instances=1,
+    )
+    fn = ctx.prog.func("codemodder.code_directory.filter_files")
+    r = ctx.resolver(fn)
+
+    def is_matcher(e) -> bool:
+        e = r.expand(e)
+        if isinstance(e, ast.Call):
+            q = r.callee_qname(e) or ""
+            if q in ("fnmatch.filter", "fnmatch.fnmatch", "fnmatch.fnmatchcase"):
+                return True
+            if call_name(e) in ("list", "set", "tuple", "sorted", "iter") and len(e.args) == 1:
+                return is_matcher(e.args[0])
+        if isinstance(e, (ast.ListComp, ast.GeneratorExp, ast.SetComp)):
+            # [fnmatch.filter(names, p) for p in patterns]   or   (n for n in names if fnmatch.fnmatch(n, p))
+            if is_matcher(e.elt):
+                return True
+            return any(isinstance(c, ast.Call) and (r.callee_qname(c) or "").startswith("fnmatch.") for g in e.generators for cond in g.ifs for c in ast.walk(cond)) and not any(
+                isinstance(c, ast.Compare) and any(isinstance(o, (ast.In, ast.NotIn, ast.Eq)) for o in c.ops) for g in e.generators for cond in g.ifs for c in ast.walk(cond))
+        if isinstance(e, ast.Starred):
+            return is_matcher(e.value)
+        return False
+
+    rets = [n.value for n in walk_no_nested(fn.node) if isinstance(n, ast.Return) and n.value is not None]
+    n = 0
+    for rv in rets:
+        v = r.expand(rv)
+        parts = []
+        if isinstance(v, ast.Call) and last_attr(v.func) in ("chain", "from_iterable"):
+            parts = list(v.args)
+        else:
+            parts = [v]
+        for p_ in parts:
+            n += 1
+            rep.check("R-GLOB-ONLY", fn.qname, fn.loc(p_), is_matcher(p_), f"source:{unparse(p_)[:40]}",
+                      f"filter_files also yields `{unparse(p_)[:70]}`, names selected by something other than fnmatch on a pattern")
+    if n == 0:
+        raise AnalysisError("filter_files has no return")
+
+
 ROLE_FAMILIES = [
     {"line_include", "line_exclude"},
     {"path_include", "path_exclude", "include_paths", "exclude_paths", "included_paths"},
@@ -304,6 +350,7 @@ def check(ctx, rep):
     rule_enum_siblings(ctx, rep)
     rule_line_suffix(ctx, rep)
     rule_pattern_args(ctx, rep)
+    rule_glob_only(ctx, rep)
     rep.not_covered += [
         "which paths match which glob (fnmatch semantics over trees x patterns)",
         "liveness 'every selected file with a fixable construct is fixed' beyond the lost-update rule evaluated under C18",
